@@ -39,6 +39,44 @@ type Engine struct {
 	funcTypes  map[string]*Contract
 	lines    map[string][]string
 	mu       sync.Mutex
+	ptrHeaps map[string]bool // heap names (without the 2-char kind prefix) whose values are struct pointers
+	ptrOnce  sync.Once
+}
+
+// isPtrHeap reports whether the heap with this name stores pointers to struct
+// objects: a pointer-typed field of a named struct type, or the element heap of
+// a pointer type.
+func (e *Engine) isPtrHeap(name string) bool {
+	e.ptrOnce.Do(func() {
+		e.ptrHeaps = map[string]bool{}
+		for _, tp := range e.allTypes {
+			sc := tp.Scope()
+			for _, n := range sc.Names() {
+				tn, ok := sc.Lookup(n).(*types.TypeName)
+				if !ok || tn.IsAlias() {
+					continue
+				}
+				if _, isStruct := tn.Type().Underlying().(*types.Struct); !isStruct {
+					continue
+				}
+				if nt, isN := tn.Type().(*types.Named); isN && nt.TypeParams().Len() > 0 {
+					continue
+				}
+				key := typeKey(tn.Type())
+				e.ptrHeaps["*"+key] = true
+				build(tn.Type(), func(l Leaf) string {
+					if l.Ptr {
+						e.ptrHeaps[key+l.Path] = true
+					}
+					return ""
+				})
+			}
+		}
+	})
+	if len(name) < 3 || (name[:2] != "H:" && name[:2] != "M:") {
+		return false
+	}
+	return e.ptrHeaps[name[2:]]
 }
 
 func loadEngine(repo, assumedDir string, overlay map[string][]byte) (*Engine, error) {
